@@ -157,6 +157,27 @@ CHECKS = {
          "hold the input rows in Hilbert order with k non-empty partitions.",
          "_retry_args shortened (1 ms, 3 attempts); quick rotates the last three axes over the full npartitions product.",
          "DESIGN.md section 3/C10"),
+ "C11": ("exploration", "E1",
+         "bounded exhaustive enumeration of (kind, subtype, array variant, index kind, compression, partitions, projections) round trips",
+         "pandas path: the full product kind x subtype x array variant (plain with missing+empty, sliced, concatenated, "
+         "all-missing) x 5 index kinds x 3 compressions (2100 frames), frames with all seven geometry columns and every "
+         "ordered projection of size <= 2 (plus projections naming the index); Dask path: kind x subtype x partitions "
+         "{1,2,3,11,12} x index kind x compression, projection, pandas reader on the multi-file dataset, list / reversed "
+         "list / glob of datasets named d10,d9,d2. The written frame (and, independently, the intended dtype and "
+         "coordinate values) must come back exactly.",
+         "The written frame of the Dask path is ddf.compute(); file order of the pandas reader on a directory is not compared.",
+         "DESIGN.md section 3/C11"),
+ "C12": ("exploration", "E1",
+         "bounded exhaustive enumeration of partition counts x writers x geometry= x dataset combinations x boxes against recomputed extents",
+         "A 16-row frame (two geometry columns, missing/empty rows, an all-missing partition) written with 1..16 partitions "
+         "by to_parquet, pack_partitions_to_parquet and to_parquet after cached-bounds-then-filter; read back with "
+         "geometry in {default, pts}, single / list / glob / reversed list. Recorded bounds (frame attribute, series view, "
+         "_common_metadata JSON parsed independently) must equal the extents recomputed from the raw coordinates of each "
+         "loaded partition, in load order, for every column; for every box (generic, touching a partition extent exactly, "
+         "just missing it, reversed, disjoint, covering) the kept partitions must be exactly those whose recorded extent "
+         "overlaps, no intersecting row may be lost and the bounds reported afterwards must be those of the kept partitions.",
+         "Partitions with NaN recorded extent are don't-care for pruning.",
+         "DESIGN.md section 3/C12"),
 }
 
 NOT_YET = {}
